@@ -2544,3 +2544,14 @@ theorem permuteSym_values_irrelevant [Zero K] (A : Csc K) (pinv : Array Nat) (v'
   rw [e, ← a] at b
   exact ⟨congrArg (·.1) b, congrArg (·.2.1) b, congrArg (·.2.2) b⟩
 end Piqp.Csc
+
+namespace Piqp.Csc
+variable {K : Type} [CommSemiring K]
+
+/-- the sparse Ruiz preconditioner's two-sided scaling of `Aᵀ`, `Gᵀ` (`pre_mult_diagonal` then `post_mult_diagonal`) at storage
+    level: entry `(i, j)` becomes `dl(i) · a(i,j) · dr(j)`, which is the dense `scaleMat` of the model (C15) -/
+theorem get_scale_both (A : Csc K) (hm : Mono A) (dl dr : Array K) (i j : Nat) (hj : j < A.cols) :
+    ((A.preMultDiag dl).postMultDiag dr).get i j = A.get i j * dl.getD i 0 * dr.getD j 0 := by
+  have hm' : Mono (A.preMultDiag dl) := hm
+  rw [(get_postMultDiag (A.preMultDiag dl) hm' dr i j hj).1, (get_preMultDiag A hm dl i j hj).1]
+end Piqp.Csc
